@@ -22,15 +22,20 @@ func NewSchemaCache() *SchemaCache {
 // Schema returns the J5 schema for the given message descriptor.
 func (sc *SchemaCache) Schema(src protoreflect.MessageDescriptor) (RootSchema, error) {
 	packageName, nameInPackage := splitDescriptorName(src)
+	verifAt("enter", packageName+"."+nameInPackage)
 	schemaPackage := sc.referencePackage(packageName)
+	verifAt("lookup", packageName+"."+nameInPackage)
 	if built, ok := schemaPackage.Schemas[nameInPackage]; ok {
 		if built.To == nil {
 			// When building from reflection, the 'to' should be linked by the
 			// caller which created the ref.
+			verifAt("return", packageName+"."+nameInPackage)
 			return nil, fmt.Errorf("unlinked ref: %s/%s", packageName, nameInPackage)
 		}
+		verifAt("return", packageName+"."+nameInPackage)
 		return built.To, nil
 	}
+	verifAt("insert", packageName+"."+nameInPackage)
 
 	placeholder := &RefSchema{
 		Package: schemaPackage,
@@ -52,14 +57,17 @@ func (sc *SchemaCache) Schema(src protoreflect.MessageDescriptor) (RootSchema, e
 	if placeholder.To.FullName() != placeholder.FullName() {
 		return nil, fmt.Errorf("schema %q has wrong name %q", placeholder.FullName(), placeholder.To.FullName())
 	}
+	verifAt("return", packageName+"."+nameInPackage)
 	return placeholder.To, nil
 }
 
 func (sc *SchemaCache) refTo(pkg, schema string) (*RefSchema, bool) {
 	refPackage := sc.referencePackage(pkg)
+	verifAt("refLookup", pkg+"."+schema)
 	if existing, ok := refPackage.Schemas[schema]; ok {
 		return existing, true
 	}
+	verifAt("refInsert", pkg+"."+schema)
 
 	refSchema := &RefSchema{
 		Package: refPackage,
@@ -71,9 +79,11 @@ func (sc *SchemaCache) refTo(pkg, schema string) (*RefSchema, bool) {
 }
 
 func (sc *SchemaCache) referencePackage(name string) *Package {
+	verifAt("pkgLookup", name)
 	if existing, ok := sc.packages[name]; ok {
 		return existing
 	}
+	verifAt("pkgInsert", name)
 	pkg := &Package{
 		Name:       name,
 		Schemas:    map[string]*RefSchema{},
